@@ -23,6 +23,7 @@ func runC37(c *Ctx) {
 	c.Rule("aggregator-counter-update", "first sets; drop adds value; otherwise adds difference", 1)
 	c.Rule("iterator-counter-update", "same reset rule on the read side; repeated timestamp replaces lastV", 3)
 	c.Rule("counter-chunk-bracketing", "first raw value first, last raw value last", 2)
+	c.Rule("aggregator-fresh-per-chunk", "each downsampleBatch call gets its own aggregator", 4)
 	p := c.Load("pkg/compact/downsample")
 	if p == nil {
 		return
@@ -180,6 +181,48 @@ func runC37(c *Ctx) {
 			if !seen[k] {
 				c.Bad("iterator-counter-update", construct+"#"+k, p.Pos(fn.Decl.Pos()), "counter-update-missing", "the "+k+" update of the running total was not found")
 			}
+		}
+	}
+
+	// (2b) every chunk's counter starts from its own first raw value: the aggregator handed to
+	// downsampleBatch is created for that call (reset() keeps total/last/counter on purpose, so a
+	// shared aggregator would carry the previous chunks' counter into the next chunk while the
+	// reading iterator anchors each chunk at its first raw value)
+	{
+		n := 0
+		for _, fn := range p.AllFuncs(true) {
+			if fn.Decl == nil || !strings.HasSuffix(fn.Pkg.PkgPath, rel) || strings.HasSuffix(p.Fset.Position(fn.Decl.Pos()).Filename, "_test.go") {
+				continue
+			}
+			info := fn.Info()
+			ast.Inspect(fn.Body(), func(nd ast.Node) bool {
+				call, ok := nd.(*ast.CallExpr)
+				if !ok || len(call.Args) != 4 {
+					return true
+				}
+				if f := calleeOf(info, call); f == nil || f.Name() != "downsampleBatch" {
+					return true
+				}
+				n++
+				arg := unparen(call.Args[2])
+				fresh := false
+				switch v := arg.(type) {
+				case *ast.UnaryExpr:
+					if _, isLit := unparen(v.X).(*ast.CompositeLit); isLit && v.Op == token.AND {
+						fresh = true
+					}
+				case *ast.CallExpr:
+					if f := calleeOf(info, v); f != nil && strings.HasPrefix(f.Name(), "new") {
+						fresh = true
+					}
+				}
+				c.Check(fresh, "aggregator-fresh-per-chunk", fmt.Sprintf("%s.%s#downsampleBatch[%d]", rel, fn.Name, n-1), p.Pos(call.Pos()), "aggregator-shared-across-chunks",
+					"downsampleBatch is given the aggregator "+canon(arg)+" that outlives the call: floatAggregator.reset keeps the running counter, so the next chunk's counter values continue the previous chunk's instead of starting from the chunk's own first raw value")
+				return true
+			})
+		}
+		if n == 0 {
+			c.Incomplete("aggregator-fresh-per-chunk", rel+"#downsampleBatch", "", "no call of downsampleBatch found")
 		}
 	}
 
